@@ -6,7 +6,7 @@ use tensor_store::{ScalarValue, TensorData, TensorStore, TensorValue};
 use crate::{
     chunker::{Chunk, Chunker, StreamingHasher},
     error::{BlobError, Result},
-    gc::{increment_chunk_refs, lock_chunk},
+    gc::{increment_chunk_refs, lock_chunk, pending_add, pending_remove, recount_gate, store_id},
     metadata::PutOptions,
 };
 
@@ -28,9 +28,24 @@ pub struct BlobWriter {
     chunker: Chunker,
     state: WriteState,
     chunks: Vec<String>,
+    /// Chunk references registered as pending (not yet listed by a finished artifact).
+    pending: PendingRefs,
     total_size: usize,
     hasher: StreamingHasher,
     buffer: Vec<u8>,
+}
+
+/// Chunk references of an open upload; released when the upload is finished (its artifact
+/// lists the chunks from then on) or abandoned.
+struct PendingRefs {
+    store: usize,
+    keys: Vec<String>,
+}
+
+impl Drop for PendingRefs {
+    fn drop(&mut self) {
+        pending_remove(self.store, &self.keys);
+    }
 }
 
 impl BlobWriter {
@@ -42,6 +57,7 @@ impl BlobWriter {
         options: PutOptions,
         default_content_type: &str,
     ) -> Self {
+        let pending_store = store_id(&store);
         Self {
             store,
             chunker: Chunker::new(chunk_size),
@@ -58,6 +74,10 @@ impl BlobWriter {
                 embedding: options.embedding,
             },
             chunks: Vec::new(),
+            pending: PendingRefs {
+                store: pending_store,
+                keys: Vec::new(),
+            },
             total_size: 0,
             hasher: StreamingHasher::new(),
             buffer: Vec::new(),
@@ -98,6 +118,10 @@ impl BlobWriter {
 
         // exists-then-count / exists-then-create must be one step per chunk
         let _guard = lock_chunk(&chunk_key);
+
+        // Until finish() the chunk is referenced by this upload only
+        pending_add(self.pending.store, &chunk_key);
+        self.pending.keys.push(chunk_key.clone());
 
         // Check if chunk already exists (deduplication)
         if self.store.exists(&chunk_key) {
@@ -141,6 +165,12 @@ impl BlobWriter {
     /// Returns an error if metadata storage fails.
     #[allow(clippy::unused_async)]
     pub async fn finish(mut self) -> Result<String> {
+        // A recount from the finished artifacts must see this upload either entirely as
+        // pending or entirely as an artifact
+        let _gate = recount_gate()
+            .read()
+            .unwrap_or_else(std::sync::PoisonError::into_inner);
+
         // Flush remaining buffer
         if !self.buffer.is_empty() {
             let chunk = Chunk::new(std::mem::take(&mut self.buffer));
